@@ -521,3 +521,9 @@ def flatten_form(e) -> Optional[Tuple[ast.expr, ast.expr, str, int, int]]:
     outer, p0 = reversal_parity(g0.iter)
     inner, p1 = reversal_parity(g1.iter)
     return outer, inner, g0.target.id, p0, p1
+
+
+def call_params(fi: FuncInfo) -> List[str]:
+    """parameter names a call site binds: without the receiver of a method / classmethod"""
+    ps = list(fi.all_params)
+    return ps[1:] if ps and (fi.has_self or fi.is_classmethod) and not fi.is_static else ps
